@@ -13,13 +13,19 @@ def rnd2N(x):
     return ((u * 2 * N + 2**31) >> 32) % (2 * N), (u * 2 * N + 2**31) % 2**32 == 0
 
 def predict(s, a, b):
-    """p = round(2N b) - sum round(2N a_i) s_i mod 2N ; set of admissible p when some rounding is an exact tie"""
+    """p = round(2N b) - sum round(2N a_i) s_i mod 2N with ties rounded up (what the extracted model of the library computes),
+    and the set of all values p can take when every exact rounding tie may go either way (C13 allows both)"""
     pb, tb = rnd2N(b)
-    p = pb; amb = tb
+    p = pb; ties = 1 if tb else 0
     for ai, si in zip(a, s):
         if si:
             r, t = rnd2N(ai); p -= r
-    return p % (2 * N), amb
+            if t: ties += 1
+    p %= 2 * N
+    # b tie down: p-1; a_i tie down: p+1 each
+    nb = 1 if tb else 0; na = ties - nb
+    cands = {(p - x + y) % (2 * N) for x in range(nb + 1) for y in range(na + 1)}
+    return p, cands
 
 def spec_of(conf, seed):
     # lambda n k l B t bb abk aks seed
@@ -79,19 +85,22 @@ def run(ctx):
         io = vlib.run_lines(exe, il, timeout=7200)
         for (a, b, mu, kind), line, o, m in zip(cases, il, io, mo):
             ctx.count((spec, tuple(a[:8]), b, mu)); nfull += 1
-            p, amb = predict(s, a, b)
+            p, cand = predict(s, a, b)
             mb, mp, msign = ints(m)
-            if mp != p and not amb:
+            if mp != p:
                 ctx.soft('model-vs-reference', 'model exponent %d differs from the library-independent prediction %d' % (mp, p), {'spec': spec, 'a': a[:2000], 'b': b, 'secret': s[:2000]})
             if o.startswith('CRASH'):
                 ctx.report('bootstrap-crash', 'n=%d k=%d (l,B)=(%d,%d): bootstrapping died (%s) on a %s input' % (n, k, l, B, o[:80], kind), {'case': line[:100000], 'impl': o}); continue
             vals = ints(o)
             if vals[-1] != 1:
                 ctx.report('input-modified', 'bootstrapping modified its input sample (n=%d)' % n, {'case': line[:100000]})
-            cand = [p] if not amb else [p, (p - 1) % (2 * N)]
             for ph in vals[:-1]:
-                errs = [abs(vlib.w32(ph - (mu if q < N else -mu))) for q in cand]
+                errs = [abs(vlib.w32(ph - (mu if q < N else -mu))) for q in sorted(cand)]
                 e = min(errs); key = (n, k, l, B); maxerr[key] = max(maxerr.get(key, 0), e)
+                if e <= BOUND and abs(vlib.w32(ph - (mu if p < N else -mu))) > BOUND:
+                    # right for some admissible rounding of the ties, but not the one the model of the library makes
+                    ctx.soft('correspondence:tie-rounding', 'n=%d, %s input: the output sign corresponds to a rounding of an exact tie that differs from the model of modSwitchFromTorus32 (ties up); admissible exponents %s' % (n, kind, sorted(cand)[:6]),
+                             {'case': line[:200000], 'p_model': p, 'admissible': sorted(cand), 'phase': ph})
                 if e > BOUND:
                     ctx.report('bootstrap-wrong', 'n=%d k=%d (l,B)=(%d,%d), %s input: p = %d (in [0,N): %s) so the output must encrypt %smu = %d, observed phase %d (error %d > 2^28)' % (
                         n, k, l, B, kind, p, p < N, '+' if p < N else '-', mu if p < N else -mu, ph, e),
@@ -130,7 +139,7 @@ def run(ctx):
         # bootstrap without key switch through the key structure, at reduced n
         for _ in range(2 if not thorough else 8):
             a = [rng.randrange(-2**31, 2**31) for _ in range(n)]; b = rng.randrange(-2**31, 2**31); mu = rng.choice([2**29, rng.randrange(-2**31, 2**31)])
-            p, amb = predict(s, a, b)
+            p, cand = predict(s, a, b); amb = len(cand) > 1
             line = 'boot 2 %d %d %d %d %d %s %d %s %d' % (k, N, l, B, n, fmt(bkflat), mu, fmt(a), b)
             for var, opc in (('coefficient', 2), ('fft', 102)):
                 o = vlib.run_lines(exe, [line.replace('boot 2', 'boot %d' % opc, 1)], timeout=900)[0]
